@@ -3,7 +3,7 @@
 # and writes seeded/regression.json: id -> {rc, concrete (a VIOLATION line without no-failing-input-found), nfi, applies}
 par="${1:-5}"; shift
 cd /verif
-ids="$*"; [ -z "$ids" ] && ids=$(ls seeded | grep -E '^C[0-9]{2}-[0-9]+$')
+ids="$*"; [ -z "$ids" ] && ids=$(ls seeded | grep -E '^C[0-9]{2}-[0-9]+$' | sort -t- -k2,2n -k1,1)
 one() {
   s=$1; p=${s%-*}
   out=$(harness/seed_eval.sh $s $p 2>&1)
